@@ -45,8 +45,8 @@ CHECKS = {
   note="Trusted: refimpl::bip32, refimpl::secp, refimpl::hashes. IL >= n branches unreachable by generation.",
   ref="DESIGN.md §3 C08"),
  "C09": dict(
-  technique="robustness fuzzing with structured generators (proptest: prefixes, mutants, length-field substitutions of valid encodings, random bytes/text) over 49 decoder entry points under process supervision, with a counting allocator as memory oracle; libFuzzer targets in the thorough tier",
-  text="Every decoder is fed the empty input, all one-byte inputs, every prefix of valid encodings, mutants, extreme declared lengths in every compact-size form, long tails and conditionals nested 100 000 deep; a violation is a panic (caught), the death of the supervised child (journal attribution) or a call whose peak live heap exceeds 64 KiB + 1024 x input length (measured by a counting global allocator).",
+  technique="robustness fuzzing with structured generators (proptest: prefixes, mutants, length-field substitutions of valid encodings, random bytes/text) over 50 decoder entry points under process supervision, with a counting allocator as memory oracle; libFuzzer targets in the thorough tier",
+  text="Every decoder is fed the empty input, all one-byte inputs, every prefix of valid encodings, mutants, extreme declared lengths in every compact-size form, long tails, repeated units (path components, tokens), nested CBOR heads with declared counts, extended-key strings with every depth byte and conditionals nested 100 000 deep; a violation is a panic (caught), the death of the supervised child (journal attribution) or a call whose peak live heap exceeds 1 MiB + 1024 x input length (measured by a counting global allocator); an excess of the four CBOR entry points that their declared counts account for is the known finding cbor-declared-count-preallocation.",
   note="Trusted: the counting allocator and the child supervision of the harness. The memory constants have a > 4x margin over the worst ratio measured on valid inputs.",
   ref="DESIGN.md §3 C09"),
 
@@ -82,8 +82,8 @@ CHECKS = {
   note="Trusted: refimpl::secp, refimpl::sighash, refimpl::codec (strict DER), refimpl::hashes. Code separators only at the top level of the locking script; high-S variants not generated.",
   ref="DESIGN.md §3 C15"),
  "C16": dict(
-  technique="property-based testing / fuzz-style opcode soup (proptest) under process supervision: totality, step bound, stepping-vs-run metamorphic relation, state preservation after errors",
-  text="Tens of thousands of adversarial programs per run over every opcode value (incl. bare structural opcodes built through from_script_bits), hostile operands, signature-shaped pushes, coinbase elements and interpreters built from transaction inputs; each is stepped to the end and run to completion in supervised child processes. Violations are panics (caught), process death (journal attribution), more steps than elements, run/step disagreement, or stacks that changed on an erroring step.",
+  technique="property-based testing / fuzz-style opcode soup (proptest) under process supervision: totality, step bound, stepping-vs-run metamorphic relation, state preservation after errors, continuation from clones and serde copies; libFuzzer targets `interp` and `interptx` in the thorough tier",
+  text="Tens of thousands of adversarial programs per run over every opcode value (incl. bare structural opcodes built through from_script_bits), hostile operands, signature-shaped pushes, coinbase elements, interpreters built from transaction inputs (also from an explicit element list and from opaque unlocking scripts), conditionals holding code separators before signature checks, and conditionals nested through the element constructors; each is stepped to the end and run to completion in supervised child processes. Violations are panics (caught), process death (journal attribution), more steps than elements, run/step disagreement, stacks that changed on an erroring step, an iteration that does not end after an error, or a clone taken half-way that finishes differently. A process death on the committed deep-constructed-nest witness is the known finding constructed-nesting-overflows-native-stack.",
   note="Trusted: the harness' step accounting. Computed-size allocations (CAT/MUL/NUM2BIN growth) are capped and counted, as DESIGN §2.11 states. Nesting depth <= 300 (the library's execution cost is cubic in the depth).",
   ref="DESIGN.md §3 C16"),
  "C17": dict(
